@@ -1002,4 +1002,304 @@ Section Full.
     split; [eapply safe_micro; eauto|]. split; [eapply calm_micro; eauto|].
     split; [eapply ahead_micro; eauto|eapply envi_micro; eauto].
   Qed.
+
+  (* ---- the initial configuration ---- *)
+  Hypothesis CB0 : NoDup (map fst (callbacks m0)).
+  Hypothesis PEND0 : pending m0 = [].
+
+  Lemma pcount0 ns s : pcount m0 ns s = 0.
+  Proof. unfold pcount, plist, agetd. rewrite PEND0. reflexivity. Qed.
+
+  Lemma spawn_idle k : idle_pc (t_pc (spawn k)) = true.
+  Proof. destruct k; reflexivity. Qed.
+  Lemma init_idle t : In t (map spawn causes) -> idle_pc (t_pc t) = true.
+  Proof. intro H. apply in_map_iff in H as (k & <- & _). apply spawn_idle. Qed.
+
+  Lemma inv_init : Inv (init m0 env0 causes).
+  Proof.
+    unfold init. split; [|split; [|split]].
+    - constructor; cbn [c_mgr c_tasks c_log].
+      + exact WF0.
+      + exact CB0.
+      + intros s ns. rewrite pcount0, !cnt_zero; [reflexivity| |].
+        * intros t Ht. apply idle_post, init_idle, Ht.
+        * intros t Ht. apply idle_pre, init_idle, Ht.
+      + intros s ns. rewrite cnt_zero by (intros t Ht; apply idle_post, init_idle, Ht). cbn. lia.
+      + intros s ns. rewrite !cnt_zero; [lia| |].
+        * intros t Ht. apply idle_post, init_idle, Ht.
+        * intros t Ht. apply idle_pre, init_idle, Ht.
+      + intros s ns H. rewrite cnt_zero in H by (intros t Ht; apply idle_win, init_idle, Ht). lia.
+      + intros ns r s Hr. destruct (mem m0 ns PNone s) as [e|] eqn:E; cbn [is_some]; [reflexivity|].
+        destruct (mem m0 ns r s) as [e|] eqn:E2; [|reflexivity].
+        destruct WF0 as [_ [H3 _]]. rewrite (H3 ns r s e Hr E2) in E. discriminate.
+      + reflexivity.
+      + intros s ns H1 H2. lia.
+    - intros _. split; [reflexivity|]. cbn [c_tasks]. intros t Ht. apply in_map_iff in Ht as (k & <- & _).
+      destruct k; split; cbn; try reflexivity; discriminate.
+    - intros t Ht. cbn [c_tasks] in Ht. apply in_map_iff in Ht as (k & <- & _). split; [apply tidy_spawn|].
+      intros s ns Htg _ _. destruct k; cbn in *; unfold ahead; cbn.
+      + destruct Htg as [-> ->]. left. auto.
+      + destruct Htg as [-> _]. left. reflexivity.
+      + exact I.
+    - unfold Envi. cbn [c_tasks c_env]. split; [|split].
+      + rewrite map_map. rewrite <- (map_id causes) at 2. apply map_ext. intros k. destruct k; reflexivity.
+      + intros t e r Ht _ Hp. apply in_map_iff in Ht as (k & <- & _). destruct k; discriminate.
+      + intros e He _. exact He.
+  Qed.
+
+  Lemma quiet_init : quiet (init m0 env0 causes).
+  Proof.
+    intros t Ht. cbn [init c_tasks] in Ht. pose proof (init_idle t Ht) as H.
+    unfold window_of. destruct (t_pc t); try reflexivity; discriminate.
+  Qed.
+  Lemma ndw_init : double_window (init m0 env0 causes) = false.
+  Proof. apply no_window_ndw. apply quiet_init. Qed.
+
+  (* ---- from the invariant to the property ---- *)
+  Lemma in_room_mem m ns r s : in_room m ns r s = is_some (mem m ns r s).
+  Proof. unfold in_room. rewrite mem_room_of. destruct (room_of m ns r) as [b|]; [|reflexivity]. destruct (bd_get b s); reflexivity. Qed.
+
+  Lemma all_done_pc c : all_done c = true -> forall t, In t (c_tasks c) -> t_pc t = PDone.
+  Proof.
+    unfold all_done. rewrite forallb_forall. intros H t Ht. specialize (H t Ht). unfold done in H.
+    destruct (t_pc t); try discriminate. reflexivity.
+  Qed.
+
+  Lemma inv_outcome c : Inv c -> outcome R m0 env0 causes c.
+  Proof.
+    intros (HS & HC & HA & (Hcs & Hlost & Hkept)).
+    assert (Hbound : forall s ns, hcount s ns (c_log c) <= mb m0 ns s /\
+                                  (hcount s ns (c_log c) = 0 -> mb (c_mgr c) ns s = mb m0 ns s)).
+    { intros s ns. pose proof (s_hand m0 c HS s ns). pose proof (s_own m0 c HS s ns).
+      pose proof (safe_mb_mono m0 c HS ns s). lia. }
+    assert (Hdone : all_done c = true -> forall s ns, pcount (c_mgr c) ns s = 0 /\ cnt (at_post s ns) (c_tasks c) = 0).
+    { intros Hd s ns. pose proof (all_done_pc c Hd) as Hp.
+      assert (A : cnt (at_pre s ns) (c_tasks c) = 0) by (apply cnt_zero; intros t Ht; apply idle_pre; rewrite (Hp t Ht); reflexivity).
+      assert (B : cnt (at_post s ns) (c_tasks c) = 0) by (apply cnt_zero; intros t Ht; apply idle_post; rewrite (Hp t Ht); reflexivity).
+      rewrite (s_pend m0 c HS). lia. }
+    constructor.
+    - intros s ns. destruct (Hbound s ns) as [A _]. pose proof (mb_le1 m0 ns s). lia.
+    - intros s ns H. destruct (Hbound s ns) as [A _]. pose proof (mb_le1 m0 ns s).
+      assert (E : mb m0 ns s = 1) by lia. apply mb_one in E as [e E]. rewrite in_room_mem, E. reflexivity.
+    - intro HR. apply (HC HR).
+    - intros s ns r H0 Hr. destruct (Hbound s ns) as [_ B]. specialize (B H0).
+      rewrite !in_room_mem, (s_frame m0 c HS ns r s Hr).
+      destruct (mem (c_mgr c) ns PNone s) as [e|] eqn:E; cbn [is_some]; [reflexivity|].
+      assert (E0 : mem m0 ns PNone s = None) by (apply mb_zero; rewrite <- B; apply mb_zero; exact E).
+      destruct (mem m0 ns r s) as [e|] eqn:E2; [|reflexivity].
+      destruct WF0 as [_ [H3 _]]. rewrite (H3 ns r s e Hr E2) in E0. discriminate.
+    - intros s H0. apply (s_cbs m0 c HS). intros ns. apply Hbound. apply H0.
+    - intros Hd k s ns Hk Htg Hin0.
+      assert (Hmb0 : mb m0 ns s = 1).
+      { rewrite in_room_mem in Hin0. unfold mb. rewrite Hin0. reflexivity. }
+      destruct (Hdone Hd s ns) as [Hp0 Hpost0].
+      assert (Hgone : mb (c_mgr c) ns s = 0).
+      { pose proof (mb_le1 (c_mgr c) ns s). destruct (Nat.eq_dec (mb (c_mgr c) ns s) 1) as [E1|]; [|lia]. exfalso.
+        rewrite <- Hcs in Hk. apply in_map_iff in Hk as (t & Hct & Ht). destruct (HA t Ht) as [_ Hah].
+        rewrite <- Hct in Htg. specialize (Hah s ns Htg E1 Hp0). unfold ahead in Hah.
+        rewrite (all_done_pc c Hd t Ht) in Hah. exact Hah. }
+      split; [pose proof (s_hand m0 c HS s ns); lia|]. apply mb_zero in Hgone.
+      split; [intros r Hr; rewrite in_room_mem, (s_frame m0 c HS ns r s Hr), Hgone; reflexivity|].
+      split; [rewrite is_connected_spec, Hgone, andb_false_r; reflexivity|].
+      apply (s_cbs_gone m0 c HS s ns Hmb0). apply mb_zero. exact Hgone.
+    - intros Hd s ns. rewrite is_pending_count. destruct (Hdone Hd s ns) as [-> _]. reflexivity.
+    - intros Hd e r Hk. rewrite <- Hcs in Hk. apply in_map_iff in Hk as (t & Hct & Ht).
+      apply (Hlost t e r Ht Hct). apply (all_done_pc c Hd t Ht).
+    - exact Hkept.
+  Qed.
 End Full.
+
+(* ------------------------------------------------------------------ *)
+(* the theorems                                                        *)
+(* ------------------------------------------------------------------ *)
+Section Theorems.
+  Variables (R : list str) (m0 : mgr) (env0 : list str) (causes : list cause).
+  Hypothesis Q0 : quiescent_start m0.
+
+  Let WF0 : WF m0 := proj1 Q0.
+  Let CB0 : NoDup (map fst (callbacks m0)) := proj1 (proj2 Q0).
+  Let PEND0 : pending m0 = [] := proj2 (proj2 Q0).
+  Let c0 := init m0 env0 causes.
+  Let I := Inv R m0 env0 causes.
+  Let I_micro : forall c i t, I c -> double_window c = false -> nth_error (c_tasks c) i = Some t ->
+      forall m env t' l, micro R (c_mgr c) (c_env c) t = (m, env, t', l) ->
+      I (mkCfg m env (upd (c_tasks c) i t') (c_log c ++ l)) := inv_micro R m0 env0 causes WF0.
+
+  (* asyncio granularity: every schedule *)
+  Theorem once_async sched : outcome R m0 env0 causes (run_sched GAsync R causes sched m0 env0).
+  Proof.
+    unfold run_sched. apply (inv_outcome R m0 env0 causes WF0).
+    apply (lift_run_async R I I_micro sched c0).
+    - apply inv_init; assumption.
+    - apply quiet_init.
+  Qed.
+
+  (* asyncio granularity: no task is ever suspended inside a check-then-mark window *)
+  Theorem async_window_closed sched :
+    forall t, In t (c_tasks (run_sched GAsync R causes sched m0 env0)) -> window_of t = None.
+  Proof.
+    unfold run_sched. apply (lift_run_async R I I_micro sched c0).
+    - apply inv_init; assumption.
+    - apply quiet_init.
+  Qed.
+
+  (* thread granularity: every schedule that never opens the window of one client twice *)
+  Theorem thread_except sched :
+    no_double_check GThread R c0 sched -> outcome R m0 env0 causes (run_sched GThread R causes sched m0 env0).
+  Proof.
+    intro H. unfold run_sched. apply (inv_outcome R m0 env0 causes WF0).
+    apply (lift_run_thread R I I_micro sched c0); [apply inv_init; assumption|exact H].
+  Qed.
+
+  (* every violating schedule has a prefix after which two tasks stand inside the window of
+     the same (sid, ns) *)
+  Lemma ndc_or_dw sched : forall c,
+    no_double_check GThread R c sched \/ exists k, double_window (prefix_cfg GThread R c sched k) = true.
+  Proof.
+    induction sched as [|i r IH]; intros c; cbn [no_double_check].
+    - destruct (double_window c) eqn:E; [right; exists 0; exact E|left; reflexivity].
+    - destruct (double_window c) eqn:E; [right; exists 0; exact E|].
+      destruct (IH (fst (step GThread R c i))) as [A|[k A]]; [left; split; [reflexivity|exact A]|].
+      right. exists (S k). exact A.
+  Qed.
+
+  Theorem only_via_double_check sched :
+    ~ outcome R m0 env0 causes (run_sched GThread R causes sched m0 env0) ->
+    exists k, double_window (prefix_cfg GThread R c0 sched k) = true.
+  Proof.
+    intro H. destruct (ndc_or_dw sched c0) as [A|A]; [|exact A]. exfalso. apply H. apply thread_except. exact A.
+  Qed.
+
+  (* tasks run one after the other *)
+  Lemma in_flight_window t : in_flight t = false -> window_of t = None.
+  Proof. unfold in_flight, window_of. destruct (t_pc t); try reflexivity. destruct (t_pc (spawn (t_cause t))); discriminate. Qed.
+
+  Lemma others_idle_quiet l : forall i, others_idle l i = true -> quiet_but l i.
+  Proof.
+    induction l as [|t l IH]; intros [|i] H j u Hj N; cbn [others_idle] in H.
+    - destruct j; discriminate.
+    - destruct j; discriminate.
+    - destruct j as [|j]; [congruence|]. cbn [nth_error] in Hj. rewrite forallb_forall in H.
+      apply in_flight_window. specialize (H u (nth_error_In _ _ Hj)). destruct (in_flight u); [discriminate|reflexivity].
+    - apply andb_true_iff in H as [H1 H2]. destruct j as [|j].
+      + cbn [nth_error] in Hj. inversion Hj; subst. apply in_flight_window. destruct (in_flight u); [discriminate|reflexivity].
+      + cbn [nth_error] in Hj. apply (IH i H2 j u Hj). congruence.
+  Qed.
+
+  Lemma step_quiet_but g c i : quiet_but (c_tasks c) i -> quiet_but (c_tasks (fst (step g R c i))) i.
+  Proof.
+    intro H. unfold step. destruct (nth_error (c_tasks c) i) as [t|]; [|exact H].
+    destruct (move g R (c_mgr c) (c_env c) t) as [[[m env] t'] l]. cbn [fst c_tasks].
+    intros j u Hj N. rewrite nth_upd_other in Hj by congruence. eauto.
+  Qed.
+
+  Lemma sequential_ndc sched : forall c,
+    double_window c = false -> sequential GThread R c sched -> no_double_check GThread R c sched.
+  Proof.
+    induction sched as [|i r IH]; intros c Hc Hs; cbn [no_double_check]; [exact Hc|].
+    destruct Hs as [H1 H2]. split; [exact Hc|]. apply IH; [|exact H2].
+    apply (quiet_but_ndw _ i). apply step_quiet_but. apply others_idle_quiet. exact H1.
+  Qed.
+
+  Theorem thread_sequential sched :
+    sequential GThread R c0 sched -> outcome R m0 env0 causes (run_sched GThread R causes sched m0 env0).
+  Proof.
+    intro H. apply thread_except. apply sequential_ndc; [|exact H]. apply ndw_init.
+  Qed.
+End Theorems.
+
+(* ------------------------------------------------------------------ *)
+(* concrete states: the hypotheses are satisfiable, and the refutation *)
+(* ------------------------------------------------------------------ *)
+Definition x_sl : str := s2l "/".
+Definition x_nb : str := s2l "/b".
+Definition x_e0 : str := s2l "e0".
+Definition x_e1 : str := s2l "e1".
+Definition x_S (n : string) : str := s2l n.
+
+(* one client alone in its namespace *)
+Definition x_lone_ops : list mop := [MConnect x_e0 x_sl (x_S "S0")].
+Definition x_lone : mgr := fold_left mstep x_lone_ops mgr_init.
+(* transport e0 on two namespaces (S0 in "/", with a room and a pending callback; S1 in "/b"),
+   a second transport e1 on "/" (S2) *)
+Definition x_full_ops : list mop :=
+  [ MConnect x_e0 x_sl (x_S "S0"); MConnect x_e0 x_nb (x_S "S1"); MConnect x_e1 x_sl (x_S "S2");
+    MEnter (x_S "S0") x_sl (PStr (s2l "r1")); MGenAck (x_S "S0") 0%N ].
+Definition x_full : mgr := fold_left mstep x_full_ops mgr_init.
+
+Example x_lone_start : quiescent_start x_lone.
+Proof.
+  split; [|split].
+  - apply C03_wf_thm; [solve_ops_ok|cbn; solve_nodup_str].
+  - vm_compute. constructor.
+  - vm_compute. reflexivity.
+Qed.
+Example x_full_start : quiescent_start x_full.
+Proof.
+  split; [|split].
+  - apply C03_wf_thm; [solve_ops_ok|cbn; solve_nodup_str].
+  - vm_compute. solve_nodup_str.
+  - vm_compute. reflexivity.
+Qed.
+
+(* server.disconnect(S0) in one thread, the client's DISCONNECT packet in another *)
+Definition x_two : list cause := [CApi (x_S "S0") x_sl; CClient x_e0 x_sl].
+(* both pass is_connected, then both mark, both run the handler *)
+Definition x_sched_twice : list nat := [0; 1; 1; 0; 1; 0; 1; 0; 1; 0].
+(* both pass is_connected; the packet thread finishes; disconnect() then finds the namespace gone *)
+Definition x_sched_keyerror : list nat := [0; 1; 1; 1; 1; 1; 0].
+
+Theorem thread_refuted_twice :
+  let c := run_sched GThread [] x_two x_sched_twice x_lone [x_e0] in
+  all_done c = true /\ hcount (x_S "S0") x_sl (c_log c) = 2 /\ raised (c_log c) = false /\
+  is_pending (c_mgr c) (x_S "S0") x_sl = true.
+Proof. vm_compute. repeat split. Qed.
+
+Theorem thread_refuted_keyerror :
+  let c := run_sched GThread [] x_two x_sched_keyerror x_lone [x_e0] in
+  all_done c = true /\ hcount (x_S "S0") x_sl (c_log c) = 1 /\ raised (c_log c) = true /\
+  In (LMark (x_S "S0") x_sl (Err KeyError)) (c_log c) /\
+  is_pending (c_mgr c) (x_S "S0") x_sl = true.
+Proof. vm_compute. repeat split. auto 10. Qed.
+
+Theorem thread_refuted :
+  exists R m0 env0 causes sched, quiescent_start m0 /\
+    ~ outcome R m0 env0 causes (run_sched GThread R causes sched m0 env0).
+Proof.
+  exists [], x_lone, [x_e0], x_two, x_sched_twice. split; [exact x_lone_start|].
+  intro H. pose proof (o_once _ _ _ _ _ H (x_S "S0") x_sl) as H1.
+  destruct thread_refuted_twice as (_ & H2 & _). cbv zeta in H2. rewrite H2 in H1. lia.
+Qed.
+
+(* in both witnesses the window of (S0, "/") is open in both tasks after three choices *)
+Example thread_refuted_window :
+  double_window (prefix_cfg GThread [] (init x_lone [x_e0] x_two) x_sched_twice 3) = true /\
+  double_window (prefix_cfg GThread [] (init x_lone [x_e0] x_two) x_sched_keyerror 3) = true.
+Proof. vm_compute. split; reflexivity. Qed.
+
+(* the same two causes at asyncio granularity, same choices: once, no error, nothing left *)
+Example async_same_choices :
+  let c := run_sched GAsync [] x_two x_sched_twice x_lone [x_e0] in
+  all_done c = true /\ hcount (x_S "S0") x_sl (c_log c) = 1 /\ raised (c_log c) = false /\
+  c_mgr c = mgr_init.
+Proof. vm_compute. repeat split. Qed.
+
+(* three causes on the richer state: a schedule without double check exists and is not trivial *)
+Definition x_three : list cause :=
+  [CLoss x_e0 (s2l "transport close"); CApi (x_S "S0") x_sl; CClient x_e0 x_nb].
+Definition x_sched_ok : list nat := [1; 1; 0; 0; 0; 2; 0; 0; 0; 2; 1; 0; 1; 0; 1; 0].
+Example x_sched_ok_ndc : no_double_check GThread [] (init x_full [x_e0; x_e1] x_three) x_sched_ok.
+Proof. vm_compute. repeat split. Qed.
+Example x_sched_ok_run :
+  let c := run_sched GThread [] x_three x_sched_ok x_full [x_e0; x_e1] in
+  all_done c = true /\ hcount (x_S "S0") x_sl (c_log c) = 1 /\ hcount (x_S "S1") x_nb (c_log c) = 1 /\
+  hcount (x_S "S2") x_sl (c_log c) = 0 /\ c_env c = [x_e1].
+Proof. vm_compute. repeat split. Qed.
+
+(* one task after the other *)
+Definition x_sched_seq : list nat := repeat 1 5 ++ repeat 0 12 ++ repeat 2 3.
+Example x_sched_seq_sequential : sequential GThread [] (init x_full [x_e0; x_e1] x_three) x_sched_seq.
+Proof. vm_compute. repeat split. Qed.
+Example x_sched_seq_run :
+  all_done (run_sched GThread [] x_three x_sched_seq x_full [x_e0; x_e1]) = true.
+Proof. vm_compute. reflexivity. Qed.
